@@ -137,12 +137,25 @@ func (x *c18Mat) check(ops []c18Op, upto int, probe string, wantOff eventbus.Off
 }
 
 //verif:entry property=C18 tier=both bounds="M messages (M_quick=2,M_thorough=3), each insert/update/delete/reset/snapshot-start/snapshot-end/change for an unregistered type over 2 entity types with arbitrary (SMT string) keys and symbolic values; strict or not; split into two replay sessions at any point; state compared through a universally quantified probe key" cover="one-session,two-sessions,strict-stop" M_quick=2 M_thorough=3
-func harnessC18Fold() {
-	M := vParam("M", 3)
-	strict := vBool()
+func harnessC18Fold() { c18Fold(vParam("M", 3), false) }
+
+//verif:entry property=C18 tier=both bounds="longer logs over a smaller alphabet: M messages (M_quick=3,M_thorough=4), each insert/update/delete of one of two fixed keys (one contains the separator) of one entity type with a symbolic value, or reset; non-strict; split into two replay sessions at any point; same fold oracle" cover="one-session,two-sessions" M_quick=3 M_thorough=4
+func harnessC18FoldFocused() { c18Fold(vParam("M", 3), true) }
+
+func c18Fold(M int, focused bool) {
+	strict := !focused && vBool()
 	bus, st := newBus()
 	ops := make([]c18Op, M)
 	for i := range ops {
+		if focused {
+			o := c18Op{kind: vInt(0, 3)}
+			if o.kind <= 2 {
+				o.key = []string{"k1", "a/b"}[vPick(2)]
+				o.val = vInt(-9, 9)
+			}
+			ops[i] = o
+			continue
+		}
 		o := c18Op{kind: vInt(0, 6)}
 		if o.kind <= 2 || o.kind == 6 {
 			o.typ = vInt(0, 1)
